@@ -23,7 +23,7 @@ ParamsOf(r) == <<"params", r>>
 TokenOf(r) == <<"token", r>>
 Fails(r) == r \in {"boom1", "boom2"}
 \* requests answered without reaching middleware/endpoint values of their own: 404, 405, slash redirect
-Fixed(r) == r \in {"nf", "na", "redir", "dna", "nfh", "nfj"}
+Fixed(r) == r \in {"nf", "na", "redir", "redir2", "dna", "nfh", "nfj"}
 ErrorOf(r) == <<"error", r>>
 
 (* --algorithm Requests {
